@@ -51,6 +51,12 @@ theorem decode_consumes_bounded (fuel : Nat) (bs : List UInt8) (i : Item) (rest 
   have := decodeItem_sound' fuel bs i rest h
   rw [this]; simp
 
+/-- every size the header reader accepts fits Go's uint64 (at most 8 length bytes) and a header is at most 9 bytes:
+the model's unbounded `Nat` sizes never leave the range rlp.Stream computes in. -/
+theorem header_size_fits_uint64 (bs : List UInt8) (isList : Bool) (n h : Nat) :
+    decodeHeader bs = .ok (isList, n, h) → n < 2 ^ 64 ∧ h ≤ 9 :=
+  hdr_fits bs isList n h
+
 /-- what a decoder has to allocate for an accepted input (payload bytes + one unit per node) is at most twice the
 input length: no accepted size field can demand memory far beyond the input. -/
 theorem decode_weight_le (bs : List UInt8) (i : Item) : decode bs = .ok i → weight i ≤ 2 * bs.length := by
